@@ -303,8 +303,24 @@ func (x *Exec) Apply(op Op) Res {
 		o.Before(x, &op)
 	}
 	res := x.run(&op)
+	if res.Panic != "" && (op.K == KSlash || op.K == KSlashHook || op.K == KJail || op.K == KUnjail) {
+		// a panic while the staking/slashing/evidence module slashes runs in begin-block: the chain halts
+		x.Halted = "panic during slash: " + res.Panic
+	}
 	x.Ress = append(x.Ress, res)
 	x.L.record(x, &op, &res)
+	if x.Halted != "" {
+		// The block in which the chain halts is never committed: only oracles that judge
+		// the halt itself (C17) look at it.
+		for _, o := range x.Oracles {
+			if h, ok := o.(interface {
+				AfterHalt(x *Exec, op *Op, res *Res)
+			}); ok {
+				h.AfterHalt(x, &op, &res)
+			}
+		}
+		return res
+	}
 	for _, o := range x.Oracles {
 		o.After(x, &op, &res)
 	}
